@@ -144,6 +144,17 @@ pub fn deep_programs() -> Vec<Program> {
         let root = StructDecl::new(Trait::FromMeta, vec![Field::new("alpha_beta", Ty::Struct(1)), Field::new("gamma_x", Ty::OptU32)]);
         out.push(Program { decls: vec![Decl::Struct(root), Decl::Struct(mid), Decl::Struct(leaf)], root: 0, family: "deep same-name".into() });
     }
+    // members whose attribute name is a path keyword (legal as a meta path: `crate = ..`)
+    {
+        let mk = |rust: &str, name: &str, ty: Ty| {
+            let mut f = Field::new(rust, ty);
+            f.rename = Some(name.into());
+            f
+        };
+        let child = StructDecl::new(Trait::FromMeta, vec![mk("s", "self", Ty::U32), mk("u", "Self", Ty::OptU32)]);
+        let root = StructDecl::new(Trait::FromMeta, vec![mk("c", "crate", Ty::U32), mk("p", "super", Ty::OptU32), Field::new("inner", Ty::Struct(1)), Field::new("plain", Ty::OptU32)]);
+        out.push(Program { decls: vec![Decl::Struct(root), Decl::Struct(child)], root: 0, family: "deep keyword-names".into() });
+    }
     // many members: 9 and 17 (required / optional / multiple in rotation)
     for n in [9usize, 17] {
         let fields: Vec<Field> = (0..n)
@@ -465,6 +476,10 @@ pub fn enum_corpus(thorough: bool) -> Vec<Program> {
             Variant { rust: "ABc".into(), rename: None, skip: false, word: None, body: VBody::Struct(vec![Field::new("x", Ty::U32)]) },
             // a struct variant that declares no field: everything written inside it is unknown
             Variant { rust: "Empty".into(), rename: None, skip: false, word: None, body: VBody::Struct(vec![]) },
+            // one-character effective name (a char literal is still not a string)
+            Variant { rust: "Q".into(), rename: None, skip: false, word: None, body: VBody::Unit },
+            // newtype whose payload has a value-for-absent without being spelled `Option`
+            Variant { rust: "Sw".into(), rename: None, skip: false, word: None, body: VBody::Newtype(Ty::Flag) },
         ];
         out.push(Program {
             decls: vec![Decl::Enum(EnumDecl { rule, from_word: false, from_none: false, allow_unknown: None, variants })],
@@ -497,6 +512,10 @@ pub fn enum_root_forms(prog: &Program) -> Vec<Item> {
     let mut v = vec![Item::word("e"), Item::nv("e", "5"), Item::nv("e", "true"), Item::nv("e", "'c'"), Item::nv("e", "1 + 2"), Item::nv("e", "a::b")];
     for n in &names {
         v.push(Item::nv("e", &format!("\"{n}\"")));
+        // a char literal spelling the whole name
+        if n.chars().count() == 1 && n != "'" && n != "\\" {
+            v.push(Item::nv("e", &format!("'{n}'")));
+        }
     }
     v
 }
